@@ -19,6 +19,30 @@ def enum_members(prog, modname, clsname):
     return out
 
 
+def plain_members(prog, ci):
+    """{name: value} of a plain `enum.Enum` whose members are bound to distinct constants (str, int, tuples of them) or
+    `enum.auto()`; None when a member value is anything else (IntEnum classes are read by enum_members)"""
+    out = {}
+    auto = 0
+    for name, v in ci.class_assigns.items():
+        if name.startswith('_'):
+            continue
+        if isinstance(v, ast.Call) and norm(v.func).split('.')[-1] == 'auto' and not v.args:
+            auto += 1
+            out[name] = ('auto', auto)
+            continue
+        try:
+            c = ast.literal_eval(v)
+        except Exception:
+            return None
+        out[name] = c
+    if not out or len({repr(x) for x in out.values()}) != len(out):
+        return None            # aliases (two names, one value) are one member: not modelled
+    if all(isinstance(c, int) and not isinstance(c, bool) for c in out.values()):
+        return None            # integer valued: the IntEnum reading applies
+    return out
+
+
 def eval_list(prog, mod, node, scope, enum_name):
     """evaluate a class/module level list expression made of list literals, + concatenation, names of other lists,
     None and <Enum>.<MEMBER> / resolved function names  ->  python list of member names / None / dotted callee names"""
